@@ -4,7 +4,9 @@ TARGETS = [("fn", "menelaus.detector:StreamingDetector._validate_X"),
            ("fn", "menelaus.detector:BatchDetector._validate_X"),
            ("fn", "menelaus.detector:StreamingDetector._validate_y")] + \
           [("fn", SCALAR[c] + ".update") for c in SCALAR] + \
-          [("fn", "menelaus.change_detection.adwin:ADWIN.update"), ("fn", "menelaus.concept_drift.adwin_accuracy:ADWINAccuracy.update")]
+          [("fn", "menelaus.change_detection.adwin:ADWIN.update"), ("fn", "menelaus.concept_drift.adwin_accuracy:ADWINAccuracy.update"),
+           ("fn", "menelaus.data_drift.kdq_tree:KdqTreeStreaming.update"),
+           ("fn", "menelaus.concept_drift.lfr:LinearFourRates.update@tnr")]
 LEVEL = "proof"
 ASSUMPTIONS = A_COMMON + [
     "a rejected call is harmless *modulo the pending reset*: every detector performs the reset that follows a "
